@@ -1,19 +1,131 @@
 package main
 
 import (
+	"flag"
 	"fmt"
-	"golang.org/x/tools/go/packages"
-	"golang.org/x/tools/go/ssa"
-	"golang.org/x/tools/go/ssa/ssautil"
+	"os"
+	"strconv"
+	"strings"
 )
 
-func main() {
-	cfg := &packages.Config{Mode: packages.LoadAllSyntax, Dir: "/repo", BuildFlags: []string{"-tags=verif"}}
-	pkgs, err := packages.Load(cfg, ".")
-	if err != nil {
-		panic(err)
+func envInt(name string, def int) int {
+	if v := os.Getenv(name); v != "" {
+		if n, err := strconv.Atoi(v); err == nil {
+			return n
+		}
 	}
-	prog, spkgs := ssautil.AllPackages(pkgs, ssa.InstantiateGenerics)
-	prog.Build()
-	fmt.Println(len(spkgs), spkgs[0].Pkg.Path())
+	return def
+}
+
+func main() {
+	if len(os.Args) < 2 {
+		fmt.Fprintln(os.Stderr, "usage: govc check -property <id> [-tier quick|thorough] | func <name> | ghost | list")
+		os.Exit(2)
+	}
+	cmd := os.Args[1]
+	fs := flag.NewFlagSet(cmd, flag.ExitOnError)
+	repo := fs.String("repo", "/repo", "repository directory")
+	prop := fs.String("property", "", "property id")
+	tier := fs.String("tier", os.Getenv("VERIF_TIER"), "quick|thorough")
+	timeout := fs.Int("timeout", 0, "per-obligation solver timeout (s)")
+	verbose := fs.Bool("v", false, "verbose")
+	keep := fs.Bool("keep", false, "keep SMT files")
+	out := fs.String("out", "/verif", "output root (evidence/, replay/)")
+	fs.Parse(os.Args[2:])
+	if *tier == "" {
+		*tier = "quick"
+	}
+	seed := envInt("VERIF_SEED", 0)
+	switch cmd {
+	case "ghost":
+		P, err := LoadProgram(*repo)
+		if P != nil {
+			fmt.Println(P.GhostSrc)
+		}
+		if err != nil {
+			fmt.Fprintln(os.Stderr, err)
+			os.Exit(2)
+		}
+	case "list":
+		P, err := LoadProgram(*repo)
+		if err != nil {
+			fmt.Fprintln(os.Stderr, err)
+			os.Exit(2)
+		}
+		for _, n := range P.Contracts.Order {
+			fmt.Println(n)
+		}
+	case "func":
+		P, err := LoadProgram(*repo)
+		if err != nil {
+			fmt.Fprintln(os.Stderr, err)
+			os.Exit(2)
+		}
+		for _, u := range P.Undecided {
+			fmt.Println("UNDECIDED:", u)
+		}
+		to := *timeout
+		if to == 0 {
+			to = 10
+		}
+		code := 0
+		for _, name := range fs.Args() {
+			if debugFunc(P, name, to, *verbose, *keep, seed) {
+				code = 1
+			}
+		}
+		os.Exit(code)
+	case "check":
+		os.Exit(runCheck(*repo, *out, *prop, *tier, *timeout, seed, *verbose, *keep))
+	default:
+		fmt.Fprintln(os.Stderr, "unknown command", cmd)
+		os.Exit(2)
+	}
+}
+
+func debugFunc(P *Program, name string, timeout int, verbose, keep bool, seed int) bool {
+	rep := verifyFunc(P, name)
+	dir, _ := os.MkdirTemp("", "govc")
+	if !keep {
+		defer os.RemoveAll(dir)
+	} else {
+		fmt.Println("smt files in", dir)
+	}
+	solveAll(rep.Obls, dir, timeout, false, seed, 16)
+	fmt.Printf("== %s (mode %s): %d obligations, %d paths, gen %d ms\n", name, rep.Mode, len(rep.Obls), rep.Paths, rep.GenMS)
+	for _, p := range rep.Problems {
+		fmt.Println("  PROBLEM:", p)
+	}
+	bad := len(rep.Problems) > 0
+	for _, o := range rep.Obls {
+		ok := o.Status == "unsat"
+		if o.Cover {
+			ok = o.Status != "unsat"
+		}
+		if !ok {
+			bad = true
+		}
+		if verbose || !ok {
+			fmt.Printf("  %-6s %-8s %5dms %s  %v  -- %s\n", map[bool]string{true: "ok", false: "FAIL"}[ok], o.Status, o.TimeMS, o.Name, o.Tags, o.Desc)
+			if !ok {
+				if len(o.Model) > 0 {
+					var ks []string
+					for k, v := range o.Model {
+						ks = append(ks, k+"="+v)
+					}
+					fmt.Println("         model:", strings.Join(ks, " "))
+				}
+				if verbose {
+					fmt.Println("         trail:", o.Trail)
+					fmt.Println("         goal:", o.ctx.Show(o.Goal))
+				}
+			}
+		}
+	}
+	if verbose {
+		for _, t := range rep.Trusted {
+			fmt.Println("  trusted:", t)
+		}
+	}
+	return bad
 }
